@@ -109,8 +109,39 @@ def check_message(res, v):
 def visit(res, v, symbols):
     if v.mk == 'dead':
         check_message(res, v)
+        if symbols[0] in ('\n', '\r\n', ';'):
+            cached_message(res, v)
         if len(symbols) >= 3:
             res.sample({'text': v.text, 'message': str(v.r[-1])}, cap=2)
+
+
+_cached = [None]
+
+
+def _reset_cached():
+    _cached[0] = None
+
+
+runner.TASK_INIT.append(_reset_cached)
+
+
+def cached_message(res, v):
+    """The message of the same text on a parser with a parse cache must be the same message."""
+    import copy
+    from ..core import real as realmod
+    if v.rk not in ('dead',):
+        return
+    if _cached[0] is None:
+        e1.get_real()
+        p = copy.deepcopy(e1._template)
+        p.parse_cache = {}
+        _cached[0] = realmod.Real(p)
+    r = _cached[0].parse(v.text)
+    if len(_cached[0].parser.parse_cache) > 2000:
+        _cached[0].parser.parse_cache.clear()
+    if r[0] != v.rk or str(r[-1]) != str(v.r[-1]):
+        res.violation('parse-cache-changes-message', 'with a parse cache the syntax-error message of the same text is different',
+                      {'text': v.text, 'expected': str(v.r[-1]), 'observed': str(r[-1]) if r[0] != 'ok' else 'accepted'})
 
 
 def check_text(res, text):
@@ -118,6 +149,7 @@ def check_text(res, text):
     res.count('strings')
     if v.mk == 'dead':
         check_message(res, v)
+        cached_message(res, v)
     return v
 
 
